@@ -1,5 +1,7 @@
 """C14 - basis functions: derivatives are the derivatives of the function.  Deciding monitors: icontract postconditions
 on the real partial/partial2/gradient/hessian/__call__ methods of every family (vt.monitors_basis)."""
+import copy
+
 import numpy as np
 
 from .. import monitors_basis
@@ -52,6 +54,7 @@ def w_family(ctx, rng, idx):
     dim = int(rng.integers(1, 4))
     index = int(rng.integers(0, dim))
     f, (lo, hi) = make(rng, fam, index, dim, neutral=(idx % 5 == 0))
+    f0 = copy.deepcopy(f)  # pristine (never called) copy
     ctx.describe({'family': fam, 'dimension': dim, 'index': index, 'params': monitors_basis._params(f)})
     refus = (NotImplementedError,)
     for _ in range(4):
@@ -60,15 +63,26 @@ def w_family(ctx, rng, idx):
         if fam == 'Bspline':  # stay away from knots, where the spline is only C^(degree-1)
             while np.min(np.abs(np.asarray(f.knots) - t[index])) < 2e-3:
                 t[index] = rng.uniform(lo, hi)
-        call('transform.%s.__call__' % fam, f, t, prop=P)
-        for k in range(dim):
-            call('transform.%s.partial' % fam, f.partial, t, k, prop=P, refusals=refus)
-            for k2 in range(dim):
-                call('transform.%s.partial2' % fam, f.partial2, t, k, k2, prop=P, refusals=refus)
         t0 = t.copy()
-        call('transform.%s.gradient' % fam, f.gradient, t, prop=P, refusals=refus)
-        call('transform.%s.hessian' % fam, f.hessian, t, prop=P, refusals=refus)
+        # the operations in random order (the very first call on a freshly built object may be any of them: objects built
+        # without `dimension` learn it lazily from their first argument)
+        ops = [('__call__', None, None)] + [('partial', k, None) for k in range(dim)] + [('partial2', k, k2) for k in range(dim) for k2 in range(dim)] + \
+              [('gradient', None, None), ('hessian', None, None)]
+        for j in rng.permutation(len(ops)):
+            op, k, k2 = ops[int(j)]
+            if op == '__call__':
+                call('transform.%s.__call__' % fam, f, t, prop=P)
+            elif op == 'partial':
+                call('transform.%s.partial' % fam, f.partial, t, k, prop=P, refusals=refus)
+            elif op == 'partial2':
+                call('transform.%s.partial2' % fam, f.partial2, t, k, k2, prop=P, refusals=refus)
+            elif op == 'gradient':
+                call('transform.%s.gradient' % fam, f.gradient, t, prop=P, refusals=refus)
+            else:
+                call('transform.%s.hessian' % fam, f.hessian, t, prop=P, refusals=refus)
         ctx.check('transform.%s' % fam, 'evaluation_point_unchanged', np.array_equal(t, t0), ['family=' + fam], {'before': t0, 'after': t}, prop=P)
+        if rng.random() < 0.5:  # a fresh object with the same parameters for the next point
+            f = copy.deepcopy(f0)
     # array of points
     m = int(rng.integers(1, 6))
     T = rng.uniform(-2, 2, size=(dim, m))
